@@ -4,7 +4,7 @@ From RecordUpdate Require Import RecordSet.
 From SV Require Import Base.Base IR.State IR.NS IR.Ops Xform.Clone Proofs.AssocX Proofs.Frame Proofs.Inv1a Proofs.Inv2a
   Proofs.InvP Proofs.InvW Proofs.Fresh Proofs.NsInv Proofs.Repoint Proofs.CloneInv Proofs.RefK Proofs.CloneRef Proofs.CloneT Proofs.FieldT
   Proofs.CloneMemo Proofs.CloneRR Proofs.CloneFaith Proofs.CloneInvP Proofs.CloneFull
-  Proofs.CloneMemoK Proofs.CloneFaithK Proofs.CloneStage Proofs.CloneStageP Proofs.CloneRun Proofs.CloneRemap Proofs.CloneComm Proofs.CloneLib
+  Proofs.CloneMemoK Proofs.CloneFaithK Proofs.CloneStage Proofs.CloneStageP Proofs.CloneRun Proofs.CloneEx Proofs.CloneRemap Proofs.CloneComm Proofs.CloneLib
   Proofs.SrcTree Proofs.CloneNet Proofs.CloneTop Proofs.CloneFin Proofs.CloneFrame Proofs.CloneStart Proofs.KindD.
 Import ListNotations RecordSetNotations.
 
@@ -243,6 +243,17 @@ Qed.
 
 (* ---- the copy has the structure of the original ---- *)
 Definition img (M : memo) (a b : id) : Prop := In (a, b) M.
+(* the image of a pin listed by a wire: inner pins by the memo; outer pins by the memo on the instance and on the key *)
+Definition mpinF (s0 : state) (m : memo) (p : pin) : option pin :=
+  match p with
+  | PIn i => option_map PIn (mget m i)
+  | POut n i =>
+      match mget m n, assoc i (ipins s0 n) with
+      | Some n', Some _ => option_map (POut n') (mget m i)
+      | _, _ => None
+      end
+  | PDet => None
+  end.
 
 Record NetStruct (s0 : state) (n : id) (sF : state) (n' : id) (M : memo) : Prop := mkNS {
   ns_fun : NoDup (map fst M);
@@ -259,7 +270,11 @@ Record NetStruct (s0 : state) (n : id) (sF : state) (n' : id) (M : memo) : Prop 
   ns_ref : forall x x', img M x x' -> kind_of s0 x = Some KInstance ->
              iref sF x' = match iref s0 x with Some e => mget M e | None => None end;
   ns_refs : forall d d', img M d d' -> kind_of s0 d = Some KDefinition ->
-             forall x', In x' (drefs sF d') <-> exists x, In x (drefs s0 d) /\ img M x x'
+             forall x', In x' (drefs sF d') <-> exists x, In x (drefs s0 d) /\ img M x x';
+  (* connectivity: wire pointers of pins, outer-pin tables of instances (keys and wires), pin lists of wires, in order *)
+  ns_ipwire : forall i i', img M i i' -> kind_of s0 i = Some KPin -> mwire M (ipwire s0 i) = Some (ipwire sF i');
+  ns_ipins : forall x x', img M x x' -> kind_of s0 x = Some KInstance -> map_opt (imapk M true) (ipins s0 x) = Some (ipins sF x');
+  ns_wpins : forall w w', img M w w' -> kind_of s0 w = Some KWire -> map_opt (mpinF s0 M) (wpins s0 w) = Some (wpins sF w')
 }.
 
 Theorem clone_netlist_struct s0 n :
@@ -281,6 +296,11 @@ Proof.
   assert (Hdef : forall d d', In (d, d') M -> kind_of s0 d = Some KDefinition -> DefImg s0 d d' sQ M) by (intros d d' H Hk; apply (rx_di _ _ _ X d d' H Hk)).
   assert (Hdd : forall l d, In l (kids s0 RLibs n) -> In d (kids s0 RDefs l) -> exists d', In (d, d') M).
   { intros l d Hl Hd. destruct (forall2_in_r _ _ _ F2 l Hl) as [l' [_ [_ B]]]. destruct (forall2_in_r _ _ _ B d Hd) as [d' [_ H]]. exists d'. exact H. }
+  pose proof (rx_ex _ _ _ X) as EXQ.
+  assert (Hflag : forall x x' e, In (x, x') M -> kind_of s0 x = Some KInstance -> iref s0 x = Some e -> rk s0 sQ x' = true).
+  { intros x x' e H Hk Er. unfold rk. rewrite (nf_fx _ _ _ _ _ _ _ NF x x' H Hk), Er. cbn.
+    destruct (nf_cl _ _ _ _ _ _ _ NF x x' e H Hk Er) as [He _]. apply assoc_In_fst in He as [e' He']. fold (mget M e) in He'. rewrite He'.
+    apply Nat.leb_le. apply (st_rng _ _ _ T e e' (mget_in _ _ _ He')). }
   exists M. constructor.
   - apply (st_fun _ _ _ T).
   - apply (st_inj _ _ _ T).
@@ -315,6 +335,22 @@ Proof.
       destruct (ry_d2 _ _ _ Y d d' H Hk x Hx) as [Hin|[n2 [Hxn2 Hin]]].
       * exfalso. apply (Hnk x Hin). apply in_map_iff. exists (x, x'). split; [reflexivity|exact Hxx].
       * assert (n2 = x') by (apply (memo_fun M x n2 x' (st_fun _ _ _ T)); assumption). subst n2. exact Hin.
+  - intros i i' H Hk. rewrite (nf_ipwire _ _ _ _ _ _ _ NF). apply (ex_pin _ _ _ EXQ i i' H Hk).
+  - intros x x' H Hk. rewrite (nf_ipins _ _ _ _ _ _ _ NF). pose proof (ex_inst _ _ _ EXQ x x' H Hk) as Hi.
+    destruct (iref s0 x) as [e|] eqn:Er.
+    + rewrite (Hflag x x' e H Hk Er) in Hi. exact Hi.
+    + assert (Hnil : ipins s0 x = []).
+      { destruct (ipins s0 x) as [|[k ow] l] eqn:El; [reflexivity|]. exfalso.
+        assert (Hkk : In k (keys s0 x)) by (unfold keys; rewrite El; left; reflexivity).
+        apply (k_keys _ (inv_k _ I0)) in Hkk as [d [p [H0 _]]]. congruence. }
+      rewrite Hnil in Hi |- *. exact Hi.
+  - intros w w' H Hk. rewrite (nf_wpins _ _ _ _ _ _ _ NF). rewrite <- (ex_wire _ _ _ EXQ w w' H Hk). apply map_opt_ext_in.
+    intros q Hq. destruct q as [i|x i|]; cbn; try reflexivity.
+    destruct (mget M x) as [x'|] eqn:Ex; [|reflexivity]. destruct (assoc i (ipins s0 x)) as [ow|] eqn:Eo; [|reflexivity].
+    assert (Hik : In i (keys s0 x)) by (apply assoc_In_fst; exists ow; exact Eo).
+    apply (k_keys _ (inv_k _ I0)) in Hik as [d [p [H0 _]]].
+    assert (Hkx : kind_of s0 x = Some KInstance) by (apply (ft_r _ FT0); rewrite H0; discriminate).
+    rewrite (Hflag x x' d (mget_in _ _ _ Ex) Hkx H0). reflexivity.
 Qed.
 
 (* a decidable form of the closedness hypothesis *)
